@@ -1,0 +1,28 @@
+//go:build verif
+
+package stream
+
+import "sync/atomic"
+
+// verifYieldHook is the scheduling-point callback installed by the
+// verification harness (build tag verif only). It is nil by default, in which
+// case verifYield does nothing.
+var verifYieldHook atomic.Pointer[func(string)]
+
+// verifYield marks a scheduling point between two steps that the production
+// code executes back to back; the harness can park the calling goroutine there
+// to make a chosen interleaving deterministic.
+func verifYield(name string) {
+	if f := verifYieldHook.Load(); f != nil {
+		(*f)(name)
+	}
+}
+
+// VerifSetYield installs (or, with nil, removes) the scheduling-point callback.
+func VerifSetYield(f func(string)) {
+	if f == nil {
+		verifYieldHook.Store(nil)
+		return
+	}
+	verifYieldHook.Store(&f)
+}
